@@ -696,6 +696,27 @@ def fit_general(xy, uv, wxy=None, wuv=None):
         svv = np.dot(w, v * v)
         suv = np.dot(w, u * v)
 
+    # An affine transformation cannot be determined from points that are
+    # collinear (or coincident). Round-off may leave a tiny non-zero pivot in
+    # the normal matrix of such points so that its "inverse" can be computed.
+    # Detect this using second central moments of the points: the smaller
+    # eigenvalue of their covariance matrix is zero to within precision of
+    # the input (double precision) coordinates.
+    du = u - su / sw
+    dv = v - sv / sw
+    if w is None:
+        cuu = np.dot(du, du)
+        cvv = np.dot(dv, dv)
+        cuv = np.dot(du, dv)
+    else:
+        cuu = np.dot(w, du * du)
+        cvv = np.dot(w, dv * dv)
+        cuv = np.dot(w, du * dv)
+    if (cuu * cvv - cuv**2) <= np.finfo(np.double).eps * (0.5 * (cuu + cvv))**2:
+        raise SingularMatrixError(
+            "Singular matrix: suspected colinear points."
+        )
+
     m = np.array([[su, sv, sw], [suu, suv, su], [suv, svv, sv]],
                  dtype=np.longdouble)
     a = np.array([sx, sxu, sxv], dtype=np.longdouble)
